@@ -216,6 +216,8 @@ VF_MAIN
         ae_chan_t * e = p->resamplers[c];
         VF_ASSERT(e->created && e->shared == p->shared && e->io_ratio == in_irate / in_orate,
             "every channel is created with the shared block and the requested ratio (C06)");
+        VF_ASSERT(e->scale == p->io_spec.scale && same_q(&e->q, &p->q_spec) && same_r(&e->r, &p->runtime_spec),
+            "every channel is created with the same gain, quality and runtime spec: a channel equals its mono run (C06/C12)");
         VF_ASSERT(e->r.log2_min_dft_size >= 8 || !(in_have_rt & 1) || e->r.log2_min_dft_size == in_mindft,
             "runtime spec handed to the engine is the caller's or an in-range override (C09)");
       }
